@@ -1,6 +1,7 @@
 """C17 — attribute names map to the wire and back without loss."""
 import functools
 import os
+import re
 from importlib import import_module
 from xml.sax.saxutils import escape, quoteattr
 
@@ -14,7 +15,8 @@ CASE_TYPE = "C17.Corr.case"
 RUNNER = "C17.Corr.run"
 # 1: open; 2: repaired by 16472e5d, 3: repaired by 09ff19a1 (both still recognised by Corr.cls so that a regression is
 # named: the findings being closed, the driver reports it as VIOLATION with the failing input)
-FINDING_CLASSES = {1: "C17-F1", 2: "C17-F2", 3: "C17-F3"}
+# 4: open (the integer 0 as a value: do_ava raises OtherError)
+FINDING_CLASSES = {1: "C17-F1", 2: "C17-F2", 3: "C17-F3", 4: "C17-F4"}
 RULE = ("EVERY (bundled map, local attribute) pair of the live tables: one send case, one send->receive case through "
         "the five bundled converters and one through that map alone; EVERY (bundled map, wire name) pair: receive with "
         "allow_unknown_attributes off and on (names in random case / ASCII-whitespace padding); value lists drawn from "
@@ -27,7 +29,14 @@ RULE = ("EVERY (bundled map, local attribute) pair of the live tables: one send 
         "several, unicode) x {bundled, 'to'-only, 'fro'-only, both tables, local name in another case, local name "
         "'eptid'} x {send->receive via XML / objects, receive of NameID-wrapped values with and without qualifiers}.  Received attributes are saml.Attribute objects parsed by "
         "saml.attribute_from_string from XML rendered by this harness (or, for 'obj' cases, built directly); round trips "
-        "serialise with the real to_string.  non-trivial = distinct (kind, converter-set class, name format class, "
+        "serialise with the real to_string.  PYTHON VALUES: the complete table of value shapes (str / True / False / "
+        "int <0, 0, >0, huge / None items, in lists of length 0-3 in every order of a falsy and a truthy item, and every "
+        "one of them ALONE instead of in a list) x {bundled uri / basic / unspecified (ADFS) / shibboleth, own converter "
+        "only, custom both / to-only / fro-only map, key not in the map, name format without converter} x send, and x round "
+        "trip (via XML / objects alternating) for six of these twelve targets (all twelve in the thorough tier); one typed round trip or send for EVERY (bundled map, local attribute) pair and "
+        "typed mixed dictionaries over random custom maps; a send observes the xsi:type / xsi:nil of every "
+        "AttributeValue besides its text; exceptions are observed by type name; received values are also rendered typed "
+        "(xs:boolean / xs:integer when the text is a canonical lexical form).  non-trivial = distinct (kind, converter-set class, name format class, "
         "attribute class, value-list class, allow, transport)")
 TRUSTED = ["abstraction of saml.Attribute / result dictionaries in harness/c17.py (_abs_attr, _abs_ava)",
            "XML rendering of Attribute elements in harness/c17.py (render_attr)",
@@ -36,7 +45,9 @@ ASSUMPTIONS = [
     "attribute names, name formats and map keys consist of ASCII characters plus non-cased non-ASCII characters: "
     "the model's lower() is the ASCII part of str.lower() (the bundled tables are checked to be pure ASCII on every run)",
     "leading/trailing whitespace of names and values is ASCII whitespace (model's strip() is the ASCII part of str.strip())",
-    "local attribute values are lists of str (no bare str, bool, int, None, dict values for eduPersonTargetedID)",
+    "local attribute values are lists of str / bool / int / None items or ONE str / bool / int object; not generated and "
+    "not modelled (Model: UNMODELLED): a single None (the Attribute object then has attribute_value = None), float, "
+    "bytes, tuple, set, nested lists, and for the eduPersonTargetedID OID anything but str items (no dict items)",
     "an AttributeValue holds either text or exactly one saml:NameID element; other structured values are out of scope",
     "list_to_local with an EMPTY converter list and an Attribute with NameFormat='' raises AttributeError "
     "('list' object has no attribute 'ava_from'); that input is not generated and not modelled",
@@ -193,6 +204,9 @@ def _xml_text(t):
     return escape(t).replace("\r", "&#13;")
 
 
+CANON_INT = re.compile(r"\A(0|-?[1-9][0-9]{0,30})\Z")
+
+
 def render_attr(w):
     """Independent XML rendering of one wire attribute (abstract form -> <saml:Attribute>)."""
     s = "<saml:Attribute %s" % NS
@@ -206,6 +220,10 @@ def render_attr(w):
             if t == "":
                 s += ("<saml:AttributeValue/>", '<saml:AttributeValue xsi:nil="true"/>',
                       '<saml:AttributeValue xsi:type="xs:string"></saml:AttributeValue>')[(i + len(w["values"])) % 3]
+            elif t in ("true", "false") and (i + len(w["values"])) % 2 == 0:
+                s += '<saml:AttributeValue xsi:type="xs:boolean">%s</saml:AttributeValue>' % t
+            elif CANON_INT.match(t) and (i + len(w["values"])) % 2 == 0:
+                s += '<saml:AttributeValue xsi:type="xs:integer">%s</saml:AttributeValue>' % t
             elif i % 2:
                 s += '<saml:AttributeValue xsi:type="xs:string">%s</saml:AttributeValue>' % _xml_text(t)
             else:
@@ -237,8 +255,32 @@ def obj_attr(w):
     return a
 
 
-def _abs_attr(a):
+XSI = "{http://www.w3.org/2001/XMLSchema-instance}"
+
+
+def _abs_type(v):
+    """what an AttributeValue object carries besides its text: xsi:type, '/nil' appended when xsi:nil is set"""
+    ea = v.extension_attributes or {}
+    t = ea.get(XSI + "type")
+    t = "" if t is None else (t if isinstance(t, str) else "?%r" % (t,))
+    if XSI + "nil" in ea:
+        t += "/nil" if ea[XSI + "nil"] == "true" else "/nil=%s" % (ea[XSI + "nil"],)
+    return t
+
+
+def pyvalue(v):
+    """case value (JSON) -> the Python object handed to from_local: a list, or {"one": x} for a single object"""
+    if isinstance(v, dict):
+        return v["one"]
+    return list(v)
+
+
+def _abs_attr(a, types=False):
     vals = []
+    if types:
+        if not isinstance(a.attribute_value, list):
+            return {"name": a.name, "nf": a.name_format, "friendly": a.friendly_name,
+                    "values": [["t", "?attribute_value=%r" % (a.attribute_value,)]], "types": ["?"]}
     for v in a.attribute_value:
         if v.extension_elements:
             if len(v.extension_elements) != 1 or v.extension_elements[0].tag != "NameID" or (v.text or "").strip():
@@ -251,7 +293,10 @@ def _abs_attr(a):
         else:
             t = v.text
             vals.append(["t", t if isinstance(t, str) else ("" if t is None else "?%r" % (t,))])
-    return {"name": a.name, "nf": a.name_format, "friendly": a.friendly_name, "values": vals}
+    d = {"name": a.name, "nf": a.name_format, "friendly": a.friendly_name, "values": vals}
+    if types:
+        d["types"] = [_abs_type(v) for v in a.attribute_value]
+    return d
 
 
 def _abs_ava(d):
@@ -295,12 +340,12 @@ def observe(case):
         return {"exc": "build:" + _exc(e), "wire": None, "ava": None}
     if kind == "send":
         try:
-            out = from_local(acs, {k: list(v) for k, v in case["ava"]}, case["nf"])
+            out = from_local(acs, {k: pyvalue(v) for k, v in case["ava"]}, case["nf"])
         except Exception as e:
             return {"exc": _exc(e), "wire": None}
         if out is None:
             return {"exc": None, "wire": None}
-        return {"exc": None, "wire": [_abs_attr(a) for a in out]}
+        return {"exc": None, "wire": [_abs_attr(a, True) for a in out]}
     if kind == "recv":
         try:
             if case["via"] == "xml":
@@ -316,7 +361,7 @@ def observe(case):
         return {"exc": None, "ava": _abs_ava(res)}
     if kind == "round":
         try:
-            out = from_local(acs, {k: list(v) for k, v in case["ava"]}, case["nf"])
+            out = from_local(acs, {k: pyvalue(v) for k, v in case["ava"]}, case["nf"])
             if out is None:
                 return {"exc": None, "ava": None}
             if case["via"] == "xml":
@@ -359,8 +404,30 @@ def cq_wattr(w):
         cq_opt(w["name"]), cq_opt(w["nf"]), cq_opt(w["friendly"]), "; ".join(cq_wval(v) for v in w["values"]))
 
 
+def cq_pyval(v):
+    if isinstance(v, bool):
+        return "PBool %s" % cq(v)
+    if isinstance(v, int):
+        return "PInt %s" % cq(v)
+    if isinstance(v, str):
+        return "PStr %s" % cq(v)
+    if v is None:
+        return "PNone"
+    raise TypeError("not a modelled Python value: %r" % (v,))
+
+
+def cq_pyvalue(v):
+    if isinstance(v, dict):
+        return "VOne (%s)" % cq_pyval(v["one"])
+    return "VList [%s]" % "; ".join(cq_pyval(x) for x in v)
+
+
 def cq_lava(ava):
-    return "[" + "; ".join("(%s, [%s])" % (cq(k), "; ".join(cq(v) for v in vs)) for k, vs in ava) + "]"
+    return "[" + "; ".join("(%s, %s)" % (cq(k), cq_pyvalue(vs)) for k, vs in ava) + "]"
+
+
+def cq_typed_wattr(w):
+    return "(%s, [%s])" % (cq_wattr(w), "; ".join(cq(t) for t in w["types"]))
 
 
 def cq_lval(v):
@@ -383,13 +450,21 @@ def coq_case(case, obs):
         return "CLoad %s %s" % (cq_src(case["src"]), o)
     if kind == "send":
         w = obs["wire"]
-        o = "None" if w is None else "(Some [%s])" % "; ".join(cq_wattr(x) for x in w)
+        if obs["exc"]:
+            o = "(SExc %s)" % cq(obs["exc"])
+        else:
+            o = "SNone" if w is None else "(SOk [%s])" % "; ".join(cq_typed_wattr(x) for x in w)
         return "CSend %s %s %s %s" % (cq_acs(case["acs"]), cq_lava(case["ava"]), cq(case["nf"]), o)
     if kind == "recv":
         return "CRecv %s %s %s [%s] %s" % (cq_acs(case["acs"]), cq(bool(case["allow"])), cq(case["via"] == "xml"),
                                            "; ".join(cq_wattr(w) for w in case["attrs"]), cq_ava(obs["ava"]))
+    if obs["exc"]:
+        o = "(RExc %s)" % cq(obs["exc"])
+    else:
+        o = "RNone" if obs["ava"] is None else "(ROk [%s])" % "; ".join(
+            "(%s, [%s])" % (cq(k), "; ".join(cq_lval(v) for v in vs)) for k, vs in obs["ava"])
     return "CRound %s %s %s %s %s %s" % (cq_acs(case["acs"]), cq_lava(case["ava"]), cq(case["nf"]),
-                                         cq(bool(case["allow"])), cq(case["via"] == "xml"), cq_ava(obs["ava"]))
+                                         cq(bool(case["allow"])), cq(case["via"] == "xml"), o)
 
 
 def explain_term(term):
@@ -735,11 +810,160 @@ def generate_custom(ctx, cases):
                                     attrs=[wattr(EPTID_OID, src["identifier"], [["n", at, v] for v in vals])]))
             cases.append(mk("send", "eptid-custom", acs=acs, ava=[[key, vals]], nf=src["identifier"], shape="eptid-" + shape,
                             quirks=[]))
+    return generate_typed(ctx, cases)
+
+
+# ------------------------------------------------------------------------------ Python values (round 2)
+# items a caller may put into a value list (or hand over alone): every truthiness x type corner of do_ava
+T_ITEMS = ["x", "", " p ", "0", "false", True, False, 1, 0, -7, 10 ** 21, None]
+T_MAPS = [
+    {"identifier": "urn:x:format", "to": [["isMember", "urn:X:Attr:IsMember"], ["loginCount", "urn:X:Attr:loginCount"]],
+     "fro": [["urn:X:Attr:IsMember", "isMember"], ["urn:X:Attr:loginCount", "loginCount"]]},
+    {"identifier": NF_URI, "to": [["isMember", "urn:oid:1.2.3"], ["flags", "urn:oid:1.2.4"]], "fro": None},
+    {"identifier": NF_BASIC, "to": None, "fro": [["urn:x:ismember", "isMember"], ["urn:x:flags", "flags"]]},
+]
+
+
+def value_shapes():
+    """COMPLETE small table: every item alone, in a one-element list, and every ordered pair (falsy item, other
+    item) / (other, falsy) plus triples with the falsy item first / in the middle / last."""
+    shapes = [[]]
+    for x in T_ITEMS:
+        if x is not None:
+            shapes.append({"one": x})
+        shapes.append([x])
+    falsy = ["", False, 0, None]
+    others = ["x", True, 1, False, "", 0]
+    for f in falsy:
+        for o in others:
+            if f is o or (f == o and type(f) is type(o)):
+                shapes.append([f, f])
+                continue
+            shapes.append([f, o])
+            shapes.append([o, f])
+        shapes.append([f, "x", True])
+        shapes.append(["x", f, 1])
+        shapes.append([True, "y", f])
+    shapes += [[True, False, True], [1, 2, 3], [-1, 10 ** 21], ["a", "b", 3], [False, False, 12], ["yes", False, "no"]]
+    return shapes
+
+
+def gen_typed_value(rng, str_only=False):
+    """seeded: a value list (or a single object) mixing str / bool / int items; 0 and None are rare (they end the
+    call with an exception: class 4 / outside the property)"""
+    def item():
+        k = rng.randrange(20)
+        if str_only or k < 7:
+            return gen_value(rng)
+        if k < 12:
+            return rng.random() < .5       # True / False
+        if k < 17:
+            return rng.choice([1, 2, 7, -1, -40, 255, 65536, 10 ** 12, 2 ** 64 + 1, -(10 ** 30)])
+        if k == 17:
+            return 0
+        if k == 18:
+            return None
+        return rng.choice(["0", "true", "False", "-5"])
+    k = rng.randrange(10)
+    if k == 0:
+        x = item()
+        return {"one": gen_value(rng) if x is None else x}
+    if k == 1:
+        return []
+    return [item() for _ in range(rng.randint(1, 4))]
+
+
+def _to_oid(acs_spec, key):
+    """does some converter of the set send this local name under the eduPersonTargetedID OID (then only str items
+    are in the model's scope)"""
+    try:
+        return any((a._to or {}).get(key.lower()) == EPTID_OID for a in build_acs(acs_spec))
+    except Exception:
+        return True
+
+
+def generate_typed(ctx, cases):
+    rng, deep = ctx.rng, ctx.thorough
+    shapes = value_shapes()
+    # 5a. the complete shape table against every kind of converter set / key
+    targets = [
+        ("bundled", NF_URI, "givenName"), ("bundled", NF_BASIC, "sn"), ("bundled", NF_UNSPEC, "commonName"),
+        ("bundled", NF_SHIB, "mail"), ({"sub": [3]}, NF_URI, "MAIL"), ("bundled", NF_URI, "notInAnyMap"),
+        ("bundled", "urn:x:no-converter", "givenName"),
+        ({"custom": [T_MAPS[0]]}, "urn:x:format", "isMember"), ({"custom": [T_MAPS[0]]}, "urn:x:format", "LOGINCOUNT"),
+        ({"custom": [T_MAPS[1]]}, NF_URI, "flags"), ({"custom": [T_MAPS[2]]}, NF_BASIC, "ismember"),
+        ({"custom": T_MAPS}, NF_URI, "isMember"),
+    ]
+    for ti, (acs, nf, key) in enumerate(targets):
+        for si, v in enumerate(shapes):
+            cases.append(mk("send", "typed-table", acs=acs, ava=[[key, v]], nf=nf, target=ti))
+            if deep or ti in (0, 2, 5, 7, 9, 10):
+                cases.append(mk("round", "typed-table", acs=acs, ava=[[key, v]], nf=nf, allow=bool((si + ti) % 3 == 0),
+                                via=("xml", "obj")[(si + ti) % 2], target=ti))
+    # str items only through the eduPersonTargetedID OID (alone and in lists)
+    for v in ({"one": "abc"}, {"one": ""}, {"one": " p "}, ["abc"], []):
+        for acs, key in (("bundled", "eduPersonTargetedID"),
+                         ({"custom": [{"identifier": NF_URI, "to": [["eptid", EPTID_OID]], "fro": [[EPTID_OID, "eptid"]]}]}, "eptid")):
+            cases.append(mk("send", "typed-eptid", acs=acs, ava=[[key, v]], nf=NF_URI))
+            for via in ("xml", "obj"):
+                cases.append(mk("round", "typed-eptid", acs=acs, ava=[[key, v]], nf=NF_URI, allow=False, via=via))
+    # 5b. EVERY (bundled map, local attribute) pair once with a seeded typed value
+    try:
+        live, _ = live_tables()
+    except Exception:
+        live = []
+    for i, (nf, to, fro) in enumerate(live):
+        for j, (k, wire) in enumerate(to):
+            key = recase(rng, k)
+            v = gen_typed_value(rng, str_only=_to_oid("bundled", key) or _to_oid({"sub": [i]}, key))
+            if j % 3 == 0:
+                cases.append(mk("send", "typed-pair", acs="bundled", ava=[[key, v]], nf=nf, map=i))
+            else:
+                cases.append(mk("round", "typed-pair", acs=rng.choice(["bundled", {"sub": [i]}]), ava=[[key, v]], nf=nf,
+                                allow=rng.random() < .3, via=rng.choice(["xml", "obj"]), map=i))
+    # 5c. typed dictionaries (several attributes, known and unknown keys) over bundled and random custom maps
+    for _ in range(500 if deep else 90):
+        if live and rng.random() < .5:
+            i = rng.randrange(len(live))
+            acs, nf = rng.choice(["bundled", {"sub": [i]}]), live[i][0]
+            keys = [recase(rng, rng.choice(live[i][1])[0]) for _ in range(rng.randint(1, 4))]
+            shape, quirks = None, []
+        else:
+            m = gen_custom_map(rng, rng.choice([NF_URI, NF_BASIC, "urn:x:format"]))
+            acs, nf = {"custom": [{"identifier": m["identifier"], "to": m["to"], "fro": m["fro"]}]}, m["identifier"]
+            locs = [k for k, _ in (m["to"] or [])] + [v for _, v in (m["fro"] or [])]
+            keys = [recase(rng, rng.choice(locs)) for _ in range(rng.randint(1, 4))]
+            shape, quirks = m["shape"], m["quirks"]
+        if rng.random() < .3:
+            keys.append(rand_name(rng))
+        ava = {}
+        for k in keys:
+            ava[k] = gen_typed_value(rng, str_only=_to_oid(acs, k))
+        items = [[k, v] for k, v in ava.items()]
+        dirty = any(q in quirks for q in ("asym_to", "padwire"))
+        cases.append(mk("send", "typed-mixed", acs=acs, ava=items, nf=nf, shape=shape, quirks=quirks))
+        if not dirty:
+            cases.append(mk("round", "typed-mixed", acs=acs, ava=items, nf=nf, allow=rng.random() < .5,
+                            via=rng.choice(["xml", "obj"]), shape=shape, quirks=quirks))
     return cases
 
 
 # ------------------------------------------------------------------------------ evidence
+def _tclass(x):
+    if isinstance(x, bool):
+        return "True" if x else "False"
+    if isinstance(x, int):
+        return "int0" if x == 0 else ("int-" if x < 0 else "int+")
+    if x is None:
+        return "None"
+    return "str-empty" if x == "" else "str"
+
+
 def _vclass(vals):
+    if isinstance(vals, dict):
+        return "one:" + _tclass(vals["one"])
+    if any(not isinstance(v, str) for v in vals):
+        return "typed[" + ",".join(_tclass(v) for v in vals[:3]) + "]"
     if not vals:
         return "empty-list"
     if any(v == "" for v in vals):
@@ -767,8 +991,8 @@ def nontrivial(case, obs):
     if kind in ("send", "round"):
         vc = tuple(sorted({_vclass(v) for _, v in case["ava"]}))
         out = obs.get("wire") if kind == "send" else obs.get("ava")
-        return (kind, case["tag"], acs, case.get("map"), vc, case.get("allow"), case.get("via"), case.get("shape"),
-                tuple(case.get("quirks", ())), None if out is None else len(out))
+        return (kind, case["tag"], acs, case.get("map"), case.get("target"), vc, case.get("allow"), case.get("via"),
+                case.get("shape"), tuple(case.get("quirks") or ()), obs.get("exc"), None if out is None else len(out))
     shape = tuple(sorted({("noname" if w["name"] is None else "name", "nonf" if w["nf"] is None else
                            ("unspec" if w["nf"] == NF_UNSPEC else "nf"), "wrapped" if any(v[0] == "n" for v in w["values"]) else "text")
                           for w in case["attrs"]}))
@@ -784,7 +1008,7 @@ def histogram(cases, observed):
         h["by_tag"][c["tag"]] = h["by_tag"].get(c["tag"], 0) + 1
         if o.get("exc"):
             h["exceptions"][o["exc"]] = h["exceptions"].get(o["exc"], 0) + 1
-        for q in c.get("quirks", ()):
+        for q in c.get("quirks") or ():
             h["custom_quirks"][q] = h["custom_quirks"].get(q, 0) + 1
         if c["kind"] in ("send", "round"):
             for _, v in c["ava"]:
